@@ -34,3 +34,8 @@ package config
 //@   property C13
 //@   requires l != nil
 //@   modifies nothing
+
+// MatchPkgFilter only reads the configuration value it is called on.
+//@ func Config.MatchPkgFilter
+//@   property C05 C10
+//@   modifies nothing
